@@ -96,14 +96,19 @@ def ob_send_find_services(vc):
 
     vc.stub(prot, "send_sd", on_send)
 
+    filters = list(disc.watched_services.keys()) if vc.native else []
+    flags = []  # native runs: per round, for EVERY watched filter, whether a live offer matches now
+
     def interference(k, d):
         st["round"] = st["round"] + 1
+        if vc.native:
+            flags.append([vc.bool("found_" + str(st["round"]) + "_" + str(j)) for j in range(len(filters))])
 
     def service_found(service):
         # contract of _service_found (ob_service_found): some live offer matches the filter.
         # If nothing is missing in this round, every watched filter is found.
         if vc.native:
-            found = vc.bool("found_" + str(st["round"]) + "_" + str(len(st["asked"])))
+            found = flags[st["round"]][[j for j in range(len(filters)) if filters[j] is service][0]]
         else:
             found = vc.bool("found_" + str(len(st["asked"])))
             if not st["missing"][st["round"]]:
@@ -131,7 +136,11 @@ def ob_send_find_services(vc):
             if done:
                 break
             expected.append(("sleep", None if k == 0 else (2 ** (k - 1)) * t.REPETITIONS_BASE_DELAY))
-            missing = [a[1].create_find_entry(t.FIND_TTL) for a in st["asked"] if a[0] == k and not a[2]]
+            if k >= len(flags):
+                break
+            # every watched filter without a live offer at this instant -- whether or not the
+            # task asked about it
+            missing = [filters[j].create_find_entry(t.FIND_TTL) for j in range(len(filters)) if not flags[k][j]]
             if len(missing) == 0:
                 done = True
             else:
